@@ -11,3 +11,22 @@ func Accessible(obj types.Object, outputPackagePath string) bool {
 	pkg := obj.Pkg()
 	return pkg == nil || pkg.Path() == outputPackagePath
 }
+
+// AccessibleMember checks if the field or method called name of the struct type t is accessible within outputPackagePath.
+func AccessibleMember(t *Type, name, outputPackagePath string) bool {
+	if t.Struct {
+		for i := 0; i < t.StructType.NumFields(); i++ {
+			if f := t.StructType.Field(i); f.Name() == name {
+				return Accessible(f, outputPackagePath)
+			}
+		}
+	}
+	if t.Named {
+		for i := 0; i < t.NamedType.NumMethods(); i++ {
+			if m := t.NamedType.Method(i); m.Name() == name {
+				return Accessible(m, outputPackagePath)
+			}
+		}
+	}
+	return true
+}
